@@ -13,33 +13,28 @@ from common import COQ, REPO, VERIF
 TR = os.path.join(COQ, "translated")
 
 
-def order_tie():
-    """translate $PAMS_REPO/pams/order.py, compile the generated definitions and the theorems about them.
+def _run_tie(name, sources, translate, gen_file, proofs_file, prefix):
+    """translate, compile the generated definitions and the theorems about them.
     -> dict(name, ok, stage, log, theorems=[{name, checked, assumptions}], seconds)"""
-    import py2coq_order
     t0 = time.time()
-    res = {"name": "translator:pams/order.py", "ok": False, "stage": "translate", "log": "", "theorems": [],
-           "source": os.path.join(REPO, "pams", "order.py")}
-    proofs_src = open(os.path.join(TR, "OrderGenProofs.v")).read()
+    res = {"name": name, "ok": False, "stage": "translate", "log": "", "theorems": [], "source": sources}
+    proofs_src = open(os.path.join(TR, proofs_file)).read()
     names = re.findall(r"^(?:Theorem|Example)\s+(\w+)", proofs_src, re.M)
-    res["theorems"] = [{"name": "OrderGen." + n, "checked": False, "assumptions": None} for n in names]
+    res["theorems"] = [{"name": prefix + n, "checked": False, "assumptions": None} for n in names]
     try:
-        text = py2coq_order.translate(res["source"])
-    except py2coq_order.Unsupported as e:
-        res["log"] = "translator fails closed: " + str(e)
-        res["seconds"] = round(time.time() - t0, 2)
-        return res
-    except Exception as e:  # noqa  (syntax error in the source, file missing, ...)
-        res["log"] = "translator error: " + repr(e)[-400:]
+        text = translate()
+    except Exception as e:  # noqa  (Unsupported = fails closed; syntax error in the source, file missing, ...)
+        kind = "translator fails closed: " if type(e).__name__ == "Unsupported" else "translator error: "
+        res["log"] = kind + (str(e) if type(e).__name__ == "Unsupported" else repr(e))[-400:]
         res["seconds"] = round(time.time() - t0, 2)
         return res
     os.makedirs(os.path.join(COQ, "gen"), exist_ok=True)
-    wd = tempfile.mkdtemp(prefix="tie_order_", dir=os.path.join(COQ, "gen"))
+    wd = tempfile.mkdtemp(prefix="tie_", dir=os.path.join(COQ, "gen"))
     try:
-        open(os.path.join(wd, "OrderGen.v"), "w").write(text)
-        shutil.copy(os.path.join(TR, "OrderGenProofs.v"), wd)
+        open(os.path.join(wd, gen_file), "w").write(text)
+        shutil.copy(os.path.join(TR, proofs_file), wd)
         flags = ["-Q", os.path.join(COQ, "theories"), "Pams", "-Q", wd, "PamsGen"]
-        for stage, f in (("compile-generated", "OrderGen.v"), ("proofs", "OrderGenProofs.v")):
+        for stage, f in (("compile-generated", gen_file), ("proofs", proofs_file)):
             res["stage"] = stage
             p = subprocess.run(["timeout", "300", "coqc"] + flags + [os.path.join(wd, f)], cwd=wd, text=True,
                                stdout=subprocess.PIPE, stderr=subprocess.STDOUT)
@@ -49,7 +44,7 @@ def order_tie():
                 if m and stage == "proofs":
                     upto = "\n".join(proofs_src.splitlines()[:int(m.group(1))])
                     prev = re.findall(r"^(?:Theorem|Example)\s+(\w+)", upto, re.M)
-                    res["broken_theorem"] = prev[-1] if prev else None
+                    res["broken_theorem"] = (prefix + prev[-1]) if prev else None
                 res["seconds"] = round(time.time() - t0, 2)
                 return res
             out = p.stdout
@@ -59,7 +54,7 @@ def order_tie():
         assum = {}
         for n, b in zip(printed, blocks):
             assum[n] = [] if b.startswith("Closed") else re.findall(r"^([\w.]+)\s*:", b, re.M)
-        res["theorems"] = [{"name": "OrderGen." + n, "checked": True, "assumptions": assum.get(n)} for n in names]
+        res["theorems"] = [{"name": prefix + n, "checked": True, "assumptions": assum.get(n)} for n in names]
         res["ok"] = True
         res["stage"] = "done"
         res["generated_lines"] = text.count("\n")
@@ -67,6 +62,21 @@ def order_tie():
         shutil.rmtree(wd, ignore_errors=True)
     res["seconds"] = round(time.time() - t0, 2)
     return res
+
+
+def order_tie():
+    """the comparison operators and is_expired of pams.order.Order (C02, C04)"""
+    import py2coq_order
+    src = os.path.join(REPO, "pams", "order.py")
+    return _run_tie("translator:pams/order.py", src, lambda: py2coq_order.translate(src), "OrderGen.v", "OrderGenProofs.v", "OrderGen.")
+
+
+def arith_tie():
+    """PriceLimitRule.get_limited_price (C15) and Market.convert_to_tick_level* / convert_to_price (C19)"""
+    import py2coq_arith
+    return _run_tie("translator:pams/events/price_limit_rule.py+pams/market.py(tick conversions)",
+                    [os.path.join(REPO, "pams/events/price_limit_rule.py"), os.path.join(REPO, "pams/market.py")],
+                    lambda: py2coq_arith.translate_all(REPO), "ArithGen.v", "ArithGenProofs.v", "ArithGen.")
 
 
 # ---------------------------------------------------------------------------------------------------------------
